@@ -64,7 +64,7 @@ def treeCase (inp impl : String) : CaseOut :=
         match arg.splitOn ":" with
         | [ps, name] =>
           let p := parsePath ps
-          if st.live.contains p && st.live.contains (p ++ [name]) then plain st ("dup=" ++ treeId (p ++ [name])) "spawn-child-duplicate"
+          if st.live.contains p && st.live.contains (p ++ [name]) then plain st ("dup=" ++ treeId (p ++ [name]) ++ " dupev=1") "spawn-child-duplicate"
           else plain st "skip" "skip"
         | _ => plain st "bad-op" "bad"
       else if kind = "sx" then
@@ -135,7 +135,9 @@ def treeCase (inp impl : String) : CaseOut :=
     let fails2 := match firstBad with
       | some i =>
         -- after a duplicate SpawnChild the difference is also C10's ("a duplicate spawn changes nothing")
-        let lbl := if (ops.take (i + 1)).any (·.startsWith "sd") then "C08+C10" else "C08"
+        -- (and C12's when it is the duplicate-id event that is missing or doubled)
+        let lbl := if (ops.getD i "").startsWith "sd" then "C08+C10+C12"
+                   else if (ops.take (i + 1)).any (·.startsWith "sd") then "C08+C10" else "C08"
         if fails.isEmpty then [s!"{lbl} op#{i} {ops.getD i "?"}: implementation [{view.getD i "?"}] expected [{out.getD i "?"}]"] else []
       | none => []
     let allFails := fails ++ fails2
